@@ -1441,8 +1441,9 @@ class Project:
         logger.info("Update cache...")
         start = time.time()
         cache = self._read_cache()
-        cached_ids = set(self._sp_cache)
         self._update_in_memory_cache()
+        # Compare with the ids found in the workspace, not with what was cached before.
+        cached_ids = set(self._sp_cache)
         if cache is None or set(cache) != cached_ids:
             fn_cache = self.fn(self.FN_CACHE)
             fn_cache_tmp = fn_cache + "~"
